@@ -325,8 +325,8 @@ func (g *gen) destructDecl(d int, top bool) []stmtText {
 	a, b, c := g.fresh("v"), g.fresh("v"), g.fresh("v")
 	type alt struct {
 		pat, rhs string
-		names   []string
-		kinds   []kind
+		names    []string
+		kinds    []kind
 	}
 	lit := func() string { return g.w(g.leaf(g.primKind()), pAssign) }
 	alts := []alt{
